@@ -27,6 +27,22 @@
 // Mode "lattice": small integer vectors [-3,3]^N at four scales (direct branch / lengthTiny branch for
 // underflow / subnormal / lengthTiny branch for overflowing squares), used by the failing-input search.
 //
+// Classes of the length() bounds are derived from the REFERENCE (exact dot in 113 bits), never from the code's own dot: a vector
+// whose exact dot is >= 2*min belongs to a "direct" class whatever the code did with it.  Next to the exact thresholds (where the
+// rounded dot may legitimately fall on either side) the larger of the two adjacent bounds applies.
+// BRANCH PROBE: the harness evaluates both algorithms itself in T — sqrt(x*x + y*y + ...) and max*sqrt(sum (|x_i|/max)^2) — and
+// compares length() BITWISE with both.  Where the two differ, whichever length() equals tells which branch the code took; required:
+// scaled iff dot < 2*min || dot > max, decided on the T-valued dot when the harness's left-to-right dot equals the code's dot()
+// bit for bit (it does), otherwise on the exact dot outside a margin of 16*N*u; a result equal to NEITHER is reported too.  Mode
+// "sweep" adds dense placements around both thresholds and constructed vectors whose T-valued dot is EXACTLY 2*min, its
+// predecessor, max, so that a moved/raised threshold, a changed factor, `<` -> `<=` and a dropped disjunct are all visible.
+// Mode "lattice" additionally requires, at scale 1 (all squares and their sum exact), length() == RN(sqrt(dot)) and
+// normalize*()[i] == RN(v[i] / length()) BIT FOR BIT (correctly rounded sqrt and division, nothing else).
+// Mode "exhaustive" (thorough tier): ALL positive finite floats x <= max/2 in the single-component families Vec2f(x,0),
+// Vec3f(0,x,0), Vec4f(0,0,0,x) and the all-equal families (x,x), (x,x,x), (x,x,x,x) (signs taken from the low bits of x), oracle in
+// double (|x| resp. |x|*sqrt(N); relative error 2^-52, i.e. 2^-28 float ulps), multi-threaded: length(), normalize(), normalized() on
+// every float, the other four forms on every 8th block of 2^20 consecutive floats.
+//
 // Output: one "RESIDUE ..." summary line, "CLASS ..." lines (per type x dimension x class maxima and counts)
 // and "RESIDUE-FAIL <fn> <type> <what> ..." lines with the offending input as hex floats.
 #include <ImathVec.h>
@@ -40,6 +56,9 @@
 #include <random>
 #include <stdexcept>
 #include <string>
+#include <thread>
+#include <atomic>
+#include <mutex>
 #include <vector>
 using namespace IMATH_NAMESPACE;
 typedef __float128 Q;
@@ -54,15 +73,17 @@ static std::string     fnFilter; // lattice mode: only report failures of this f
 //   length():  class A = lengthTiny branch, subnormal norm      class B = lengthTiny branch, normal norm
 //              class C = direct branch, dot < 2^10 * 2*min      class D = direct branch, the rest
 //              class E = lengthTiny branch because the squares overflow (dot > max): same bound as class B
-// Clean-tree maxima (seeds 1-3, sweep with 2 and 24 random mantissas per exponent; re-calibrated on /repo 16a5ca8):
-//   length A 1.44  B 2.65  C 2.15  D 1.58  E 2.75 ulps;  unit 1.71 eps;  ratio 3.87 u.
+//   ("branch" in these names = the branch REQUIRED for the reference dot; which branch the code really took is the branch probe's business)
+// Clean-tree maxima (seeds 1-3, sweep with 2 and 24 random mantissas per exponent; calibrated on /repo 16a5ca8 with the classes taken
+// from the REFERENCE dot and the dense / constructed threshold vectors included):
+//   length A 1.48  B 2.87  C 1.93  D 1.74  E 2.85 ulps;  unit 1.73 eps;  ratio 3.94 u.     (bounds = these + 1, rounded up to 0.1)
 #ifndef LENGTH_BOUND_A
 #define LENGTH_BOUND_A 2.5
-#define LENGTH_BOUND_B 3.7
-#define LENGTH_BOUND_C 3.2
-#define LENGTH_BOUND_D 2.6
+#define LENGTH_BOUND_B 3.9
+#define LENGTH_BOUND_C 3.0
+#define LENGTH_BOUND_D 2.8
 #define UNIT_BOUND_V 2.8
-#define RATIO_BOUND_V 4.9
+#define RATIO_BOUND_V 5.0
 #endif
 static const double LENGTH_BOUND[5] = {LENGTH_BOUND_A, LENGTH_BOUND_B, LENGTH_BOUND_C, LENGTH_BOUND_D, LENGTH_BOUND_B};
 static const double UNIT_BOUND      = UNIT_BOUND_V;  // | ||r|| - 1 | in units of epsilon, normal norms only
@@ -151,6 +172,77 @@ template <class V> static bool callForm (int form, const V& in, V& out, bool& ot
 }
 static const char* FORM[6] = {"normalize", "normalizeExc", "normalizeNonNull", "normalized", "normalizedExc", "normalizedNonNull"};
 
+// class of a vector from the REFERENCE: exact dot (113 bits) against 2*min, 2^11*min and max; reference norm against min
+template <class T> static int classOf (Q dotq, Q ref)
+{
+    const Q minN = ldexpq ((Q) 1, Lim<T>::eminNormal ());
+    if (dotq < 2 * minN) return ref < minN ? 0 : 1;
+    if (dotq > (Q) std::numeric_limits<T>::max ()) return 4;
+    return dotq < ldexpq (minN, 11) ? 2 : 3;
+}
+
+// The two algorithms of length(), written out here in T (the harness is compiled with the same -O1 -ffp-contract=off):
+// what the code must equal BITWISE on one side or the other of its guard.
+template <class T, int N> static T refDot (const typename VecOf<T, N>::type& v)
+{
+    T s = v[0] * v[0];
+    for (int i = 1; i < N; ++i) s = s + v[i] * v[i];
+    return s;
+}
+template <class T, int N> static T refScaled (const typename VecOf<T, N>::type& v)
+{
+    T a[N], m = T (0);
+    for (int i = 0; i < N; ++i) { a[i] = v[i] < T (0) ? -v[i] : v[i]; if (a[i] == T (0)) a[i] = T (0); }
+    m = a[0];
+    for (int i = 1; i < N; ++i) if (m < a[i]) m = a[i];
+    if (m == T (0)) return T (0);
+    for (int i = 0; i < N; ++i) a[i] = a[i] / m;
+    T s = a[0] * a[0];
+    for (int i = 1; i < N; ++i) s = s + a[i] * a[i];
+    return m * std::sqrt (s);
+}
+template <class T> static bool sameBitsT (T a, T b) { return std::memcmp (&a, &b, sizeof (T)) == 0; }
+
+struct BranchStat { long direct = 0, scaled = 0, same = 0, sharp2min = 0, sharpPred2min = 0, sharpMax = 0, nearLo = 0, nearHi = 0, ambiguous = 0; };
+static std::map<std::string, BranchStat> branchStats; // key: type|dim
+
+// which branch did length() take?  (decided only where the two algorithms give different bits)
+template <class T, int N> static void branchProbe (const typename VecOf<T, N>::type& v, T l, T dotT, Q dotq, Q margin, const std::string& in)
+{
+    const char* ty = Lim<T>::name ();
+    char key[32]; snprintf (key, 32, "%s|%d", ty, N);
+    BranchStat& bs = branchStats[key];
+    const T twoMin = T (2) * std::numeric_limits<T>::min (), mx = std::numeric_limits<T>::max ();
+    T d = refDot<T, N> (v), rd = std::sqrt (d), rs = refScaled<T, N> (v);
+    // expectation: sharp (on the T-valued dot) when the harness's own left-to-right dot is bit-identical to the code's dot(),
+    // otherwise from the exact dot outside the margin
+    int expect = -1; // 0 direct, 1 scaled
+    bool sharp = sameBitsT (d, dotT);
+    if (sharp) expect = (d < twoMin || d > mx) ? 1 : 0;
+    else if (dotq < 2 * (Q) std::numeric_limits<T>::min () * (1 - margin) || dotq > (Q) mx * (1 + margin)) expect = 1;
+    else if (dotq >= 2 * (Q) std::numeric_limits<T>::min () * (1 + margin) && dotq <= (Q) mx * (1 - margin)) expect = 0;
+    if (expect < 0) { ++bs.ambiguous; return; }
+    if (!std::isfinite (rd) && expect == 0) return; // cannot happen (dot <= max)
+    if (expect == 1 && !std::isfinite (rs)) return;
+    if (std::isfinite (rd) && sameBitsT (rd, rs)) { ++bs.same; return; } // both algorithms give the same bits: not decidable here
+    bool isD = std::isfinite (rd) && sameBitsT (l, rd), isS = sameBitsT (l, rs);
+    char det[240];
+    snprintf (det, 240, "got=%a direct=%a scaled=%a dot=%a (2*min=%a max=%a)", (double) l, (double) rd, (double) rs, (double) d, (double) twoMin, (double) mx);
+    if (!isD && !isS) { fail (FN (N, "length"), ty, "algorithm-neither-direct-nor-scaled", in, det); return; }
+    if (expect == 0 && !isD) { fail (FN (N, "length"), ty, "branch-scaled-taken-where-direct-required", in, det); return; }
+    if (expect == 1 && !isS) { fail (FN (N, "length"), ty, "branch-direct-taken-where-scaled-required", in, det); return; }
+    if (expect == 0) ++bs.direct; else ++bs.scaled;
+    if (sharp)
+    {
+        if (sameBitsT (d, twoMin)) ++bs.sharp2min;
+        if (sameBitsT (d, std::nextafter (twoMin, T (0)))) ++bs.sharpPred2min;
+        if (sameBitsT (d, mx)) ++bs.sharpMax;
+        if (d >= twoMin && d < T (4) * twoMin) ++bs.nearLo;          // direct, within a factor 4 above the threshold
+        if (d < twoMin && d >= twoMin / T (4)) ++bs.nearLo;
+        if (d > mx / T (4)) ++bs.nearHi;                             // within a factor 4 of max, or overflowed
+    }
+}
+
 template <class T, int N> static void checkVector (const typename VecOf<T, N>::type& v)
 {
     typedef typename VecOf<T, N>::type V;
@@ -167,11 +259,13 @@ template <class T, int N> static void checkVector (const typename VecOf<T, N>::t
     // ---- length() -------------------------------------------------------------------------------
     T    l      = v.length ();
     T    dotT   = v.dot (v);
-    bool tinyBr = dotT < T (2) * std::numeric_limits<T>::min ();
-    bool ovfBr  = dotT > std::numeric_limits<T>::max ();
-    int  cls    = tinyBr ? (ref < minN ? 0 : 1) : ovfBr ? 4 : (dotq < ldexpq (minN, 11) ? 2 : 3);
-    const char* brName = tinyBr ? "tiny-branch" : ovfBr ? "scaled-overflow" : "direct";
+    // class and bound from the REFERENCE dot (never from the code's own dot); next to a threshold the looser neighbour applies
+    const Q margin = 16 * (Q) N * ldexpq ((Q) 1, -Lim<T>::p);
+    int  cls    = classOf<T> (dotq, ref);
+    double lengthBound = std::max (LENGTH_BOUND[cls], std::max (LENGTH_BOUND[classOf<T> (dotq * (1 - margin), ref)], LENGTH_BOUND[classOf<T> (dotq * (1 + margin), ref)]));
+    const char* brName = cls <= 1 ? "tiny-branch" : cls == 4 ? "scaled-overflow" : "direct";
     ++evals;
+    if (!isZero && std::isfinite (l)) branchProbe<T, N> (v, l, dotT, dotq, margin, in);
     if (isZero)
     {
         if (!(l == T (0))) fail (FN (N, "length"), ty, "zero-vector-length-not-0", in, "");
@@ -184,9 +278,9 @@ template <class T, int N> static void checkVector (const typename VecOf<T, N>::t
         {
             double err = (double) (fabsq ((Q) l - ref) / ulpAt<T> (ref));
             note (std::string ("length_ulps|") + ty + "|" + dim + "|" + CLASSNAME[cls], err, in);
-            if (err > LENGTH_BOUND[cls])
+            if (err > lengthBound)
             {
-                char d[200]; snprintf (d, 200, "got=%a ref=%a err_ulps=%.3f bound=%.1f class=%s", (double) l, (double) ref, err, LENGTH_BOUND[cls], CLASSNAME[cls]);
+                char d[200]; snprintf (d, 200, "got=%a ref=%a err_ulps=%.3f bound=%.1f class=%s", (double) l, (double) ref, err, lengthBound, CLASSNAME[cls]);
                 fail (FN (N, "length"), ty, "ulp-error", in, d);
             }
         }
@@ -326,7 +420,9 @@ template <class T, int N> static void sweepExponent (int e, int reps)
 template <class T, int N> static void sweepThreshold (int n)
 {
     typedef typename VecOf<T, N>::type V;
-    const double factors[] = {0.25, 0.5, 0.9, 0.999, 1.0, 1.001, 1.1, 2.0, 4.0, 64.0};
+    // factors: coarse, and dense next to 1 (down to 2^-(p-4): the components are rounded to T, so the placed dot is good to ~2u)
+    std::vector<double> factors = {0.25, 0.5, 0.9, 0.999, 1.0, 1.001, 1.1, 2.0, 4.0, 64.0};
+    for (int k : {10, Lim<T>::p - 8, Lim<T>::p - 6, Lim<T>::p - 4}) { factors.push_back (1.0 - std::ldexp (1.0, -k)); factors.push_back (1.0 + std::ldexp (1.0, -k)); }
     const Q      targets[3] = {2 * (Q) std::numeric_limits<T>::min (), ldexpq ((Q) std::numeric_limits<T>::min (), Lim<T>::eminNormal ()),
                                (Q) std::numeric_limits<T>::max ()}; // dot ~ 2*min ; norm ~ min ; dot ~ max (overflow guard)
     for (int it = 0; it < n; ++it)
@@ -343,6 +439,50 @@ template <class T, int N> static void sweepThreshold (int n)
             }
 }
 
+// constructed vectors (two non-zero components, the rest zero) whose T-VALUED dot is EXACTLY a given value — 2*min (direct: the
+// comparison is strict), its predecessor (scaled), max (direct: strict again) — and on which the two algorithms give different bits,
+// so that the branch probe decides.  Found by scanning the second component over neighbouring floats.
+template <class T, int N> static long thresholdExactOne (T target, int want)
+{
+    typedef typename VecOf<T, N>::type V;
+    long found = 0;
+    for (int attempt = 0; attempt < 4000 && found < want; ++attempt)
+    {
+        std::uniform_real_distribution<double> U (0.15, 0.85);
+        double f = U (rng);
+        T x = (T) (std::sqrt (f) * std::sqrt ((double) target));
+        T y0 = (T) std::sqrt ((double) target - (double) x * (double) x);
+        int a = (int) (rng () % N), b = (a + 1 + (int) (rng () % (N - 1))) % N;
+        T y = y0;
+        for (int k = 0; k < 40; ++k) y = std::nextafter (y, T (0));
+        for (int k = 0; k < 80; ++k, y = std::nextafter (y, std::numeric_limits<T>::infinity ()))
+        {
+            V v;
+            for (int i = 0; i < N; ++i) v[i] = T (0);
+            v[a] = x; v[b] = y;
+            T d = refDot<T, N> (v);
+            if (!sameBitsT (d, target)) continue;
+            T rd = std::sqrt (d), rs = refScaled<T, N> (v);
+            if (sameBitsT (rd, rs)) continue;
+            v[a] = sgn (x); v[b] = sgn (y);
+            checkVector<T, N> (v);
+            ++found;
+            break;
+        }
+    }
+    return found;
+}
+static std::map<std::string, long> exactProbes; // key: type|dim|target
+template <class T, int N> static void thresholdExact (int want)
+{
+    const T twoMin = T (2) * std::numeric_limits<T>::min (), mx = std::numeric_limits<T>::max ();
+    char key[48];
+    snprintf (key, 48, "%s|%d|dot==2*min", Lim<T>::name (), N); exactProbes[key] += thresholdExactOne<T, N> (twoMin, want);
+    snprintf (key, 48, "%s|%d|dot==pred(2*min)", Lim<T>::name (), N); exactProbes[key] += thresholdExactOne<T, N> (std::nextafter (twoMin, T (0)), want);
+    snprintf (key, 48, "%s|%d|dot==max", Lim<T>::name (), N); exactProbes[key] += thresholdExactOne<T, N> (mx, want);
+    snprintf (key, 48, "%s|%d|dot==succ(2*min)", Lim<T>::name (), N); exactProbes[key] += thresholdExactOne<T, N> (std::nextafter (twoMin, mx), want);
+}
+
 template <class T, int N> static void zeros ()
 {
     typename VecOf<T, N>::type v;
@@ -355,6 +495,47 @@ template <class T, int N> static void sweep (int reps, int stride)
     for (int e = Lim<T>::eminSub (); e <= Lim<T>::emaxIn (); e += stride) sweepExponent<T, N> (e, reps);
     sweepExponent<T, N> (Lim<T>::emaxIn (), reps);
     sweepThreshold<T, N> (40 * (reps + 1));
+    thresholdExact<T, N> (8 * (reps + 1));
+}
+
+// scale 1: every square and the sum are exact small integers, so length() must be the CORRECTLY ROUNDED square root of the exact
+// dot and every normalize form the CORRECTLY ROUNDED quotient v[i] / length() — bit for bit, not "within a few ulps".
+static long latticeExactChecks = 0, latticeExactAmbiguous = 0;
+template <class T, int N> static void latticeExact (const typename VecOf<T, N>::type& v)
+{
+    typedef typename VecOf<T, N>::type V;
+    const char* ty = Lim<T>::name ();
+    std::string in = show<T, N> (v);
+    bool isZero = true;
+    for (int i = 0; i < N; ++i) if (v[i] != T (0)) isZero = false;
+    if (isZero) return;
+    Q dotq; normQ<T, N> (v, &dotq);
+    T want = (T) sqrtq (dotq), want2 = std::sqrt ((T) dotq); // 113-bit sqrt rounded to T; hardware sqrt of the exact integer
+    if (!sameBitsT (want, want2)) { ++latticeExactAmbiguous; return; } // the two oracles disagree (double rounding): not judged
+    T l = v.length ();
+    ++evals; ++latticeExactChecks;
+    if (!sameBitsT (l, want))
+    {
+        char d[160]; snprintf (d, 160, "got=%a correctly_rounded_sqrt_of_%g=%a", (double) l, (double) dotq, (double) want);
+        fail (FN (N, "length"), ty, "lattice-not-correctly-rounded-sqrt", in, d);
+    }
+    for (int form = 0; form < 6; ++form)
+    {
+        V r; bool other, ok = callForm (form, v, r, other);
+        ++evals; ++latticeExactChecks;
+        if (!ok) continue; // reported by checkVector
+        for (int i = 0; i < N; ++i)
+        {
+            T q1 = (T) ((Q) v[i] / (Q) want), q2 = v[i] / want;
+            if (!sameBitsT (q1, q2)) { ++latticeExactAmbiguous; continue; }
+            if (!sameBitsT (r[i], q1))
+            {
+                char d[200]; snprintf (d, 200, "component=%d got=%a correctly_rounded_quotient=%a (of %a / %a)", i, (double) r[i], (double) q1, (double) v[i], (double) want);
+                fail (FN (N, FORM[form]), ty, "lattice-not-correctly-rounded-quotient", in, d);
+                break;
+            }
+        }
+    }
 }
 
 // integer lattice [-3,3]^N at four scales: direct branch (exact squares), lengthTiny branch (underflow), subnormal,
@@ -373,7 +554,122 @@ template <class T, int N> static void lattice ()
             for (int i = 0; i < N; ++i) { idx[i] = (int) (r % 7) - 3; r /= 7; }
             for (int i = 0; i < N; ++i) v[i] = std::ldexp ((T) idx[i], scales[sc]);
             checkVector<T, N> (v);
+            if (sc == 0) latticeExact<T, N> (v);
         }
+}
+
+// ---------------------------------------------------------------------------------------------------
+// EXHAUSTIVE float families (thorough tier).  Oracle in double: for a single non-zero component the norm is |x| exactly; for the
+// all-equal family |x|*sqrt(N) (double sqrt: relative error 2^-53, i.e. < 2^-28 float ulps).
+struct ExStat
+{
+    double maxLen[5] = {0, 0, 0, 0, 0}; long nLen[5] = {0, 0, 0, 0, 0}; unsigned worstLen[5] = {0, 0, 0, 0, 0};
+    double maxUnit = 0, maxRatio = 0; unsigned worstUnit = 0, worstRatio = 0;
+    long n = 0, evals = 0, lengthExact = 0, subnormalNorm = 0;
+    std::vector<std::string> fails;
+    void merge (const ExStat& o)
+    {
+        for (int c = 0; c < 5; ++c) { if (o.maxLen[c] > maxLen[c] || (nLen[c] == 0 && o.nLen[c])) { maxLen[c] = o.maxLen[c]; worstLen[c] = o.worstLen[c]; } nLen[c] += o.nLen[c]; }
+        if (o.maxUnit > maxUnit) { maxUnit = o.maxUnit; worstUnit = o.worstUnit; }
+        if (o.maxRatio > maxRatio) { maxRatio = o.maxRatio; worstRatio = o.worstRatio; }
+        n += o.n; evals += o.evals; lengthExact += o.lengthExact; subnormalNorm += o.subnormalNorm;
+        for (auto& f : o.fails) if (fails.size () < 40) fails.push_back (f);
+    }
+};
+static float bitsToFloat (unsigned b) { float f; std::memcpy (&f, &b, 4); return f; }
+
+// family 0: single component at position pos;  family 1: all components +-x (signs from the low bits of x)
+template <int N> static void exhaustiveBlock (int family, int pos, unsigned lo, unsigned hi, bool allForms, ExStat& st)
+{
+    typedef typename VecOf<float, N>::type V;
+    const double minN = std::ldexp (1.0, -126), eps = std::numeric_limits<float>::epsilon (), u = std::ldexp (1.0, -24);
+    const double sqrtN = std::sqrt ((double) N), fmax = std::numeric_limits<float>::max ();
+    char fam[24]; snprintf (fam, 24, family == 0 ? "single@%d" : "all-equal", pos);
+    auto failx = [&] (const char* fn, const char* what, unsigned b, const std::string& det) {
+        if (st.fails.size () < 40) { char h[160]; snprintf (h, 160, "RESIDUE-FAIL %s float exhaustive-%s:%s in=bits:0x%08x(%a) ", FN (N, fn), fam, what, b, (double) bitsToFloat (b)); st.fails.push_back (h + det); }
+        else st.fails.push_back ("");
+    };
+    for (unsigned b = lo; b < hi; ++b)
+    {
+        float x = bitsToFloat (b);
+        V v;
+        for (int i = 0; i < N; ++i) v[i] = family == 0 ? (i == pos ? ((b & 1) ? -x : x) : (((b >> (1 + i)) & 1) ? -0.0f : 0.0f)) : (((b >> i) & 1) ? -x : x);
+        double ref = family == 0 ? (double) x : (double) x * sqrtN, dq = family == 0 ? (double) x * (double) x : (double) N * ((double) x * (double) x);
+        // (x*x is exact in double; N*x*x loses at most 2^-53 relative, irrelevant for the class)
+        int cls = dq < 2 * minN ? (ref < minN ? 0 : 1) : dq > fmax ? 4 : dq < 2048 * minN ? 2 : 3;
+        ++st.n;
+        float l = v.length ();
+        ++st.evals;
+        if (!std::isfinite (l)) { failx ("length", "nonfinite", b, ""); continue; }
+        if (l == 0.0f) { failx ("length", "zero-for-nonzero-vector", b, ""); continue; }
+        int e; std::frexp (ref, &e); e -= 1; if (e < -126) e = -126;
+        double err = std::fabs ((double) l - ref) / std::ldexp (1.0, e - 23);
+        if (err == 0) ++st.lengthExact;
+        ++st.nLen[cls];
+        if (err > st.maxLen[cls]) { st.maxLen[cls] = err; st.worstLen[cls] = b; }
+        if (err > LENGTH_BOUND[cls]) { char d[120]; snprintf (d, 120, "got=%a ref=%a err_ulps=%.3f bound=%.1f class=%s", (double) l, ref, err, LENGTH_BOUND[cls], CLASSNAME[cls]); failx ("length", "ulp-error", b, d); }
+        for (int form = 0; form < 6; ++form)
+        {
+            if (!allForms && form != 0 && form != 3) continue; // normalize() and normalized() on every float, the other four on every 8th block
+            V r; bool other, ok = callForm (form, v, r, other);
+            ++st.evals;
+            if (other || !ok) { failx (FORM[form], other ? "unexpected-exception-type" : "throws-for-nonzero-vector", b, ""); continue; }
+            bool bad = false;
+            for (int i = 0; i < N && !bad; ++i)
+            {
+                if (!std::isfinite (r[i])) { failx (FORM[form], "nonfinite", b, ""); bad = true; }
+                else if (std::signbit (r[i]) != std::signbit (v[i])) { failx (FORM[form], "sign", b, ""); bad = true; }
+                else if (v[i] == 0.0f && r[i] != 0.0f) { failx (FORM[form], "zero-component-not-kept", b, ""); bad = true; }
+                else if (std::fabs ((double) r[i]) > 1.0 + 4 * eps) { failx (FORM[form], "component-above-1", b, ""); bad = true; }
+            }
+            if (bad) continue;
+            if (ref < minN) { if (form == 0) ++st.subnormalNorm; continue; } // accuracy claim excludes subnormal norms
+            double s2 = 0;
+            for (int i = 0; i < N; ++i) s2 += (double) r[i] * (double) r[i];
+            double uerr = std::fabs (std::sqrt (s2) - 1.0) / eps;
+            if (uerr > st.maxUnit) { st.maxUnit = uerr; st.worstUnit = b; }
+            // single component: the normalised component must be +-1 within ONE ulp; all-equal: the general unit bound
+            double ub = family == 0 ? 1.0 : UNIT_BOUND;
+            if (uerr > ub) { char d[100]; snprintf (d, 100, "err_eps=%.3f bound=%.1f out0=%a", uerr, ub, (double) r[0]); failx (FORM[form], "unit-length", b, d); continue; }
+            for (int i = 0; i < N; ++i)
+            {
+                if (v[i] == 0.0f) continue;
+                double ee = std::fabs ((double) r[i] * ref - (double) v[i]), slack = ref * std::ldexp (1.0, -149);
+                double q = (ee > slack ? ee - slack : 0) / (u * std::fabs ((double) v[i]));
+                if (q > st.maxRatio) { st.maxRatio = q; st.worstRatio = b; }
+                if (q > RATIO_BOUND) { char d[100]; snprintf (d, 100, "component=%d err_u=%.3f bound=%.1f", i, q, RATIO_BOUND); failx (FORM[form], "ratio", b, d); break; }
+            }
+        }
+    }
+}
+
+template <int N> static void exhaustiveFamily (int family, int pos, int nthreads, unsigned stride)
+{
+    const unsigned first = 1, last = 0x7EFFFFFFu; // smallest subnormal .. max/2
+    const unsigned block = 1u << 20;
+    std::vector<ExStat> sts (nthreads);
+    std::vector<std::thread> th;
+    std::atomic<unsigned long> next (first);
+    for (int t = 0; t < nthreads; ++t)
+        th.emplace_back ([&, t] () {
+            for (;;)
+            {
+                unsigned long lo = next.fetch_add ((unsigned long) block * stride);
+                if (lo > last) break;
+                unsigned long hi = std::min<unsigned long> (lo + block, (unsigned long) last + 1);
+                exhaustiveBlock<N> (family, pos, (unsigned) lo, (unsigned) hi, ((lo - first) / block) % 8 == 0, sts[t]);
+            }
+        });
+    for (auto& t : th) t.join ();
+    ExStat tot;
+    for (auto& s : sts) tot.merge (s);
+    char fam[24]; snprintf (fam, 24, family == 0 ? "single@%d" : "all-equal", pos);
+    vectors += tot.n; evals += tot.evals;
+    for (auto& f : tot.fails) { ++failures; if (!f.empty () && failures <= 200) printf ("%s\n", f.c_str ()); }
+    printf ("EXHAUSTIVE float|%d|%s vectors=%ld evals=%ld length_bit_exact=%ld subnormal_norm=%ld unit_max_eps=%.4f(0x%08x) ratio_max_u=%.4f(0x%08x)",
+            N, fam, tot.n, tot.evals, tot.lengthExact, tot.subnormalNorm, tot.maxUnit, tot.worstUnit, tot.maxRatio, tot.worstRatio);
+    for (int c = 0; c < 5; ++c) printf (" len[%s]=%.4f/n=%ld(0x%08x)", CLASSNAME[c], tot.maxLen[c], tot.nLen[c], tot.worstLen[c]);
+    printf ("\n");
 }
 
 int main (int argc, char** argv)
@@ -388,6 +684,16 @@ int main (int argc, char** argv)
         lattice<float, 2> (); lattice<float, 3> (); lattice<float, 4> ();
         lattice<double, 2> (); lattice<double, 3> (); lattice<double, 4> ();
     }
+    else if (mode == "exhaustive")
+    {
+        // exhaustive <threads> [stride]: stride > 1 visits every stride-th block of 2^20 consecutive floats (smoke test only)
+        int      nth    = argc > 3 ? atoi (argv[3]) : (int) std::thread::hardware_concurrency ();
+        unsigned stride = argc > 4 ? (unsigned) atoi (argv[4]) : 1;
+        if (nth < 1) nth = 1;
+        if (stride < 1) stride = 1;
+        exhaustiveFamily<2> (0, 0, nth, stride); exhaustiveFamily<3> (0, 1, nth, stride); exhaustiveFamily<4> (0, 3, nth, stride);
+        exhaustiveFamily<2> (1, 0, nth, stride); exhaustiveFamily<3> (1, 0, nth, stride); exhaustiveFamily<4> (1, 0, nth, stride);
+    }
     else
     {
         int reps = argc > 3 ? atoi (argv[3]) : 2, stride = argc > 4 ? atoi (argv[4]) : 1;
@@ -395,6 +701,12 @@ int main (int argc, char** argv)
         sweep<float, 2> (reps, stride); sweep<float, 3> (reps, stride); sweep<float, 4> (reps, stride);
         sweep<double, 2> (reps, stride); sweep<double, 3> (reps, stride); sweep<double, 4> (reps, stride);
     }
+    for (auto& kv : branchStats)
+        printf ("BRANCH %s decided_direct=%ld decided_scaled=%ld same_bits_both_algorithms=%ld ambiguous_next_to_threshold=%ld dot==2*min=%ld dot==pred(2*min)=%ld dot==max=%ld "
+                "within_x4_of_2*min=%ld within_x4_of_max_or_above=%ld\n", kv.first.c_str (), kv.second.direct, kv.second.scaled, kv.second.same, kv.second.ambiguous,
+                kv.second.sharp2min, kv.second.sharpPred2min, kv.second.sharpMax, kv.second.nearLo, kv.second.nearHi);
+    for (auto& kv : exactProbes) printf ("EXACTPROBE %s constructed=%ld\n", kv.first.c_str (), kv.second);
+    if (mode == "lattice") printf ("LATTICE-EXACT checks=%ld not_judged_oracles_disagree=%ld\n", latticeExactChecks, latticeExactAmbiguous);
     for (auto& kv : stats) printf ("CLASS %s max=%.4f n=%ld worst=%s\n", kv.first.c_str (), kv.second.maxv, kv.second.n, kv.second.worst.c_str ());
     printf ("RESIDUE mode=%s seed=%lu vectors=%ld evals=%ld failures=%ld skipped_norm_above_max=%ld\n", mode.c_str (), seed, vectors, evals, failures, skippedNormAboveMax);
     return failures ? 1 : 0;
